@@ -22,3 +22,15 @@ Fixpoint py_venc_fuel (fuel : nat) (n : N) : list N :=
   | S f => if n <? 128 then [n] else N.lor (N.land n 127) 128 :: py_venc_fuel f (N.shiftr n 7)
   end.
 Definition py_venc (n : N) : list N := py_venc_fuel (N.to_nat (N.size n)) n.
+
+(* The reader loop of Python's read_unsigned_varint (unbounded result) and of C++ ReadVarIntegerFastFromArray (before its
+   W-bit truncation): `result |= (byte & 0x7F) << shift; if byte < 0x80: return result; shift += 7`, structural on the
+   bytes still to come. *)
+Fixpoint vdec_acc (l : list N) (shift result : N) : option (N * list N) :=
+  match l with
+  | [] => None
+  | b :: r =>
+      let result' := N.lor result (N.shiftl (N.land b 127) shift) in
+      if b <? 128 then Some (result', r) else vdec_acc r (shift + 7) result'
+  end.
+Definition vdec_bits (l : list N) : option (N * list N) := vdec_acc l 0 0.
